@@ -303,8 +303,15 @@ pub struct Seen {
     pub headers: http::HeaderMap,
 }
 
-#[derive(Clone)]
-pub struct Recorder(pub Arc<Mutex<Vec<Seen>>>);
+/// The innermost service. Every value (the original and each clone) answers Pending - with a wake-up -
+/// from its first `poll_ready`, as a service that warms up may; `call` works either way (the unchanged
+/// pooled and connector services call their clone without polling it).
+pub struct Recorder(pub Arc<Mutex<Vec<Seen>>>, pub u8);
+impl Clone for Recorder {
+    fn clone(&self) -> Self {
+        Recorder(self.0.clone(), 1)
+    }
+}
 
 impl<C> Service<ExecuteRequest<C, B>> for Recorder
 where
@@ -313,7 +320,12 @@ where
     type Response = http::Response<B>;
     type Error = hyperdriver::client::Error;
     type Future = std::future::Ready<Result<http::Response<B>, hyperdriver::client::Error>>;
-    fn poll_ready(&mut self, _: &mut Context<'_>) -> Poll<Result<(), Self::Error>> {
+    fn poll_ready(&mut self, cx: &mut Context<'_>) -> Poll<Result<(), Self::Error>> {
+        if self.1 > 0 {
+            self.1 -= 1;
+            cx.waker().wake_by_ref();
+            return Poll::Pending;
+        }
         Poll::Ready(Ok(()))
     }
     fn call(&mut self, req: ExecuteRequest<C, B>) -> Self::Future {
@@ -553,7 +565,7 @@ impl Engine for ReqEngine {
 
         // ---- leg 1: the three public check layers over a stub connection
         {
-            let rec = Recorder(Default::default());
+            let rec = Recorder(Default::default(), 1);
             let stack = tower::ServiceBuilder::new()
                 .layer(SetHostHeaderLayer::new())
                 .layer(Http2ChecksLayer::new())
@@ -583,7 +595,7 @@ impl Engine for ReqEngine {
 
         // ---- leg 2: pooled / unpooled service and connector service with stub transport+protocol
         for (leg, pooled) in [("pool-service", true), ("pool-service-without-pool", false)] {
-            let rec = Recorder(Default::default());
+            let rec = Recorder(Default::default(), 1);
             let inner = tower::ServiceBuilder::new()
                 .layer(SetHostHeaderLayer::new())
                 .layer(Http2ChecksLayer::new())
@@ -618,7 +630,7 @@ impl Engine for ReqEngine {
             }
         }
         {
-            let rec = Recorder(Default::default());
+            let rec = Recorder(Default::default(), 1);
             let inner = tower::ServiceBuilder::new()
                 .layer(SetHostHeaderLayer::new())
                 .layer(Http2ChecksLayer::new())
